@@ -8,7 +8,9 @@ executable.  The merge-walk and the pack bookkeeping of `RestorePlan` are in `Mo
 * `matchingFile`  — `get_matching_file(name, size)`: the existing file iff it is a regular file of exactly `size` bytes.
 * `restoreFile`   — `add_file` + `restore_contents` for one file:
     - size 0 and an empty file exists ⇒ `Existing`, nothing is done;
-    - `!verify_existing` and a matching file whose mtime equals the node's ⇒ `Existing`, file accepted unread;
+    - `!verify_existing` and a matching file whose mtime equals the node's ⇒ `Existing`, file accepted unread.  The
+      comparison is `Option<Timestamp> == Option<Timestamp>` (`mtimeEq`): whole seconds AND the nanosecond part
+      (`MTime`); a node without mtime never equals a readable file mtime;
     - otherwise every blob is compared with the bytes at its position in the matching file (`blob_matches_reader`,
       hash equality = byte equality).  `file_truncate[file_idx] = open_file.is_none()` (`fresh`): when there is no
       matching file the destination is `set_length(0)` and then `set_length(size)` (all zeros, whatever was there);
@@ -56,13 +58,24 @@ def segs (o : Opts) (fresh : Bool) (base : Bytes) (matching : Option Bytes) : Na
 def allocate (old : Bytes) (fresh : Bool) (size : Nat) : Bytes :=
   if fresh then setLength (setLength old 0) size else setLength old size
 
-/-- final content of the destination file (`none` = no file); `old` = what was there, `mtimeEq` = its mtime equals
-the snapshot node's -/
-def restoreFile (o : Opts) (old : Option Bytes) (mtimeEq : Bool) (blobs : List Bytes) : Option Bytes :=
+/-- `jiff::Timestamp` — what `Metadata::mtime` stores and what `fs::Metadata::modified()` is converted to: whole seconds
+since the epoch and the nanosecond part within the second (`0 ≤ nanos < 10^9` for a real timestamp) -/
+structure MTime where
+  secs : Int
+  nanos : Nat
+  deriving DecidableEq, Repr
+
+/-- `mtime == file.meta.mtime` in `add_file`: equality of two `Option<Timestamp>` at FULL resolution (seconds and
+nanoseconds).  `dm` = mtime of the existing destination file (`none`: `modified()` not available), `nm` = the node's -/
+def mtimeEq (dm nm : Option MTime) : Bool := dm == nm
+
+/-- final content of the destination file (`none` = no file); `old` = what was there, `dm` = its mtime, `nm` = the
+snapshot node's mtime -/
+def restoreFile (o : Opts) (old : Option Bytes) (dm nm : Option MTime) (blobs : List Bytes) : Option Bytes :=
   let size := blobs.flatten.length
   let matching := matchingFile old size
   if size = 0 ∧ matching.isSome then old
-  else if o.verify = false ∧ matching.isSome ∧ mtimeEq = true then old
+  else if o.verify = false ∧ matching.isSome ∧ mtimeEq dm nm = true then old
   else
     let fresh := matching.isNone
     some (segs o fresh (allocate (old.getD []) fresh size) matching 0 blobs).flatten
